@@ -250,7 +250,8 @@ func init() {
 				Ops: c10Ops(tier, true), Step: c19Step, SeedStep: true,
 				Required: []string{"transition.repeated", "cross_world.states_compared"},
 			}
-			return []*engine.Scenario{s1, s2, s3}
+			s4 := unionScenarioDepth("C19", "c19-union", tier, c19Step, nil, tierPick(tier, 3, 5))
+			return []*engine.Scenario{s1, s2, s3, s4}
 		},
 		Extra:       func(tier string) ([]engine.Failure, map[string]any) { return staticRule() },
 		NoReproduce: true,
